@@ -72,6 +72,19 @@ Fixpoint geval {A : Type} (f g : A -> A) (e : gexpr) (x : A) : A :=
   end.
 Definition generic_compose {A : Type} (f g : A -> A) : A -> A := geval f g src_generic_compose.
 
+(* ChainTransform.apply when the parts are ANY transforms (functions on points): every `a.compose(b)`
+   of the chain expression denotes "b then a" (compose_apply for affine pairs, generic_compose_apply for
+   callables, polyaffine_compose_apply / left_compose for PolyAffine) *)
+Fixpoint cfun {A : Type} (env : string -> A -> A) (e : cexpr) : A -> A :=
+  match e with
+  | CLeaf a => env a
+  | CComp a b => fun x => cfun env a (cfun env b x)
+  end.
+Definition fun_env {A : Type} (pre opt post : A -> A) (a : string) : A -> A :=
+  if String.eqb a "pre"%string then pre
+  else if String.eqb a "optimizable"%string then opt
+  else if String.eqb a "post"%string then post else (fun x => x).
+
 Section Model.
   Variable R : Type.
   Variables (r0 r1 : R) (radd rmul rsub : R -> R -> R) (ropp : R -> R).
